@@ -91,6 +91,7 @@ type runReport struct {
 	Done         int                 `json:"paths_completed"`
 	Infeasible   int                 `json:"paths_infeasible"`
 	Branches     int                 `json:"solver_decided_branches"`
+	Choices      int                 `json:"engine_enumerated_decisions"`
 	Queries      int                 `json:"solver_queries"`
 	Obligations  int                 `json:"obligations"`
 	Discharged   int                 `json:"discharged_unsat"`
@@ -292,7 +293,7 @@ func Main(args []string) int {
 			}
 			sum := w.Explore()
 			rep := runReport{Name: rc.Name, Pkg: rc.Pkg, Fn: rc.Fn, Mode: opts.Mode, Bounds: bounds, Params: params,
-				Paths: sum.Paths, Done: sum.Done, Infeasible: sum.Infeasible, Branches: sum.Branches, Queries: sum.Queries,
+				Paths: sum.Paths, Done: sum.Done, Infeasible: sum.Infeasible, Branches: sum.Branches, Choices: sum.Choices, Queries: sum.Queries,
 				Obligations: sum.Obligations, Discharged: sum.Discharged, Inconclusive: sum.Inconclusive,
 				OOE: sum.OOE, BoundExc: sum.BoundExceeded, Errors: sum.Errors, Known: sum.Known, Reached: sum.Reached,
 				SolverS: sum.SolverTime.Seconds(), WallS: sum.Wall.Seconds(), LoadS: w.LoadTime.Seconds(), Packages: w.NPackages,
@@ -527,7 +528,7 @@ func writeEvidence(verifDir string, cfg Config, tier string, seed int, reports [
 	var bounds []string
 	for _, r := range reports {
 		states += r.Done
-		transitions += r.Branches
+		transitions += r.Branches + r.Choices
 		obligations += r.Obligations
 		discharged += r.Discharged
 		inconc += r.Inconclusive + r.OOE + r.BoundExc + r.Errors
@@ -575,7 +576,7 @@ func writeEvidence(verifDir string, cfg Config, tier string, seed int, reports [
 			"discharged":                    discharged,
 			"inconclusive":                  inconc,
 			"exhaustive":                    false,
-			"explanation":                   "bounded symbolic execution of the real functions (go/ssa built from /repo's working tree on this run) with z3 deciding every branch and assertion; states = symbolic paths run to completion, transitions = solver-decided branch points; the claim holds for every input within `bounds` and says nothing outside them; obligations - discharged = assertions that fail only inside a finding listed in known_findings.jsonl (each printed as KNOWN-FINDING; outside the finding's predicate the same assertion is discharged), anything else undischarged makes the run exit non-zero; traces_validated_against_impl = engine paths whose solver-chosen inputs were run natively (go test against the real build) with the verdict the engine predicted: reachability witnesses of completed paths (quick: 1 per run, thorough: 3) plus every reported counterexample",
+			"explanation":                   "bounded symbolic execution of the real functions (go/ssa built from /repo's working tree on this run) with z3 deciding every branch and assertion; states = symbolic paths run to completion, transitions = decision points on those paths: branch points decided by the solver (solver_decided_branches per run) plus points where the engine itself enumerates the alternatives - case splits, fault/crash choices, scheduler choices (engine_enumerated_decisions per run); the claim holds for every input within `bounds` and says nothing outside them; obligations - discharged = assertions that fail only inside a finding listed in known_findings.jsonl (each printed as KNOWN-FINDING; outside the finding's predicate the same assertion is discharged), anything else undischarged makes the run exit non-zero; traces_validated_against_impl = engine paths whose solver-chosen inputs were run natively (go test against the real build) with the verdict the engine predicted: reachability witnesses of completed paths (quick: 1 per run, thorough: 3) plus every reported counterexample",
 			"bounds":                        bounds,
 			"functions_encoded":             en,
 			"stubs":                         st,
